@@ -112,7 +112,7 @@ theorem clamp_charAt (x : EInt) (L : Int) (h1 : L < 2^62) :
       all_goals (repeat' split); all_goals omega
     · rintro ⟨p, rfl, hp⟩; repeat' split at hp
       all_goals (repeat' split); all_goals omega
-/-! ## charAt / charCodeAt on String objects -/
+/-! ## stringAt against the code-unit view -/
 
 theorem strLength_eq (s : List Nat) : strLength s = (U s).length := by
   unfold strLength; split
@@ -154,29 +154,6 @@ theorem unit_lt (s : List Nat) (i : Nat) (h : i < (U s).length) : (U s).getD i 0
   have : (U s).getD i 0 ∈ U s := by simp [List.getD, List.getElem?_eq_getElem h]
   exact this
 
-/-- C09.charAt_strObj -/
-theorem charAt_strObj (E : Env) (s : List Nat) (args : List Val) (hs : SmallInt (argAt args 0))
-    (hl : ((U s).length : Int) < 2^62)
-    (hdev : ∀ u, Spec.charAt E (.strObj s) args = .str [u] → u ≠ 0xFFFD ∧ ¬ (0xD800 ≤ u ∧ u ≤ 0xDFFF)) :
-    charAt E (.strObj s) args = Spec.charAt E (.strObj s) args := by
-  have hspec : Spec.charAt E (.strObj s) args =
-      match Spec.toInteger E (argAt args 0) with
-      | .fin pos => if pos < 0 ∨ pos ≥ ((U s).length : Int) then .str [] else .str [(U s).getD pos.toNat 0]
-      | _ => .str [] := rfl
-  simp only [charAt, coercible, Bool.not_true, Bool.false_eq_true, if_false]
-  rcases stringAt_cases E s (argAt args 0) hs hl with ⟨p, hx, h0, h1, hat⟩ | ⟨hout, hat⟩
-  · rw [hat]
-    have hsp : Spec.charAt E (.strObj s) args = .str [(U s).getD p.toNat 0] := by
-      rw [hspec, hx]; simp only []; rw [if_neg (by omega)]
-    have hu := hdev _ hsp
-    have hlt := unit_lt s p.toNat (by omega)
-    rw [hsp, if_neg (by simpa [runeError] using hu.1)]
-    rw [U_encodeRune_unit _ (by unfold Scalar; omega) hlt]
-  · rw [hat, hspec]
-    simp only [if_true]
-    split
-    · rename_i pos hx; rw [if_pos (hout pos hx)]
-    · rfl
 /-! ## generic receiver -/
 
 /-- C09.generic_receiver (prologue): CheckObjectCoercible(this) fails exactly for undefined and null, and
@@ -199,6 +176,74 @@ theorem withThis_eq (E : Env) (r : Recv) (h : NoLone r) (f : List Nat → Res) :
   unfold Spec.withThis
   rw [thisString_link E r h]
   split <;> simp_all
+
+/-! ## charAt / charCodeAt (all receivers; the code after fix 6afda39) -/
+
+/-- C09.charAt_eq: for every receiver and every position argument charAt is §15.5.4.4, unless the unit
+    found is U+FFFD (region charAt_fffd) or a surrogate (region charAt_surrogate). -/
+theorem charAt_eq (E : Env) (r : Recv) (args : List Val) (hn : NoLone r) (hs : SmallInt (argAt args 0))
+    (hl : ((U (thisString E r)).length : Int) < 2^62)
+    (hdev : ∀ u, Spec.charAt E r args = .str [u] → u ≠ 0xFFFD ∧ ¬ (0xD800 ≤ u ∧ u ≤ 0xDFFF)) :
+    charAt E r args = Spec.charAt E r args := by
+  have hspec : Spec.charAt E r args = if coercible r then
+      (match Spec.toInteger E (argAt args 0) with
+      | .fin pos => if pos < 0 ∨ pos ≥ ((U (thisString E r)).length : Int) then .str []
+          else .str [(U (thisString E r)).getD pos.toNat 0]
+      | _ => .str []) else .throwType := by
+    unfold Spec.charAt; rw [withThis_eq E r hn]; rfl
+  unfold charAt
+  cases hc : coercible r with
+  | false => rw [hspec, hc]; simp
+  | true =>
+    rw [hc] at hspec
+    simp only [if_true] at hspec
+    simp only [Bool.not_true, Bool.false_eq_true, if_false]
+    generalize hS : thisString E r = s at *
+    rcases stringAt_cases E s (argAt args 0) hs hl with ⟨p, hx, h0, h1, hat⟩ | ⟨hout, hat⟩
+    · rw [hat]
+      have hsp : Spec.charAt E r args = .str [(U s).getD p.toNat 0] := by
+        rw [hspec, hx]; simp only []; rw [if_neg (by omega)]
+      have hu := hdev _ hsp
+      have hlt := unit_lt s p.toNat (by omega)
+      rw [hsp, if_neg (by simpa [runeError] using hu.1)]
+      rw [U_encodeRune_unit _ (by unfold Scalar; omega) hlt]
+    · rw [hat, hspec]
+      simp only [if_true]
+      split
+      · rename_i pos hx; rw [if_pos (hout pos hx)]
+      · rfl
+
+/-- C09.charCodeAt_eq: §15.5.4.5 for every receiver, unless the unit found is U+FFFD. -/
+theorem charCodeAt_eq (E : Env) (r : Recv) (args : List Val) (hn : NoLone r) (hs : SmallInt (argAt args 0))
+    (hl : ((U (thisString E r)).length : Int) < 2^62)
+    (hdev : Spec.charCodeAt E r args ≠ .int 0xFFFD) :
+    charCodeAt E r args = Spec.charCodeAt E r args := by
+  have hspec : Spec.charCodeAt E r args = if coercible r then
+      (match Spec.toInteger E (argAt args 0) with
+      | .fin pos => if pos < 0 ∨ pos ≥ ((U (thisString E r)).length : Int) then .nan
+          else .int ((U (thisString E r)).getD pos.toNat 0)
+      | _ => .nan) else .throwType := by
+    unfold Spec.charCodeAt; rw [withThis_eq E r hn]; rfl
+  unfold charCodeAt
+  cases hc : coercible r with
+  | false => rw [hspec, hc]; simp
+  | true =>
+    rw [hc] at hspec
+    simp only [if_true] at hspec
+    simp only [Bool.not_true, Bool.false_eq_true, if_false]
+    generalize hS : thisString E r = s at *
+    rcases stringAt_cases E s (argAt args 0) hs hl with ⟨p, hx, h0, h1, hat⟩ | ⟨hout, hat⟩
+    · rw [hat]
+      have hsp : Spec.charCodeAt E r args = .int ((U s).getD p.toNat 0) := by
+        rw [hspec, hx]; simp only []; rw [if_neg (by omega)]
+      rw [hsp] at hdev ⊢
+      rw [if_neg]
+      intro h; apply hdev; rw [h]; rfl
+    · rw [hat, hspec]
+      simp only [if_true]
+      split
+      · rename_i pos hx; rw [if_pos (hout pos hx)]
+      · rfl
 
 /-! ## slice / substring / substr -/
 
@@ -442,29 +487,6 @@ theorem substr_bmp (E : Env) (r : Recv) (args : List Val) (hl : NoLone r)
       have : (a + r6).toNat - a.toNat = (a + r6 - a).toNat := by omega
       simp [Spec.sub, runeSlice, this]
 
-/-- C09.charCodeAt_strObj -/
-theorem charCodeAt_strObj (E : Env) (s : List Nat) (args : List Val) (hs : SmallInt (argAt args 0))
-    (hl : ((U s).length : Int) < 2^62)
-    (hdev : Spec.charCodeAt E (.strObj s) args ≠ .int 0xFFFD) :
-    charCodeAt E (.strObj s) args = Spec.charCodeAt E (.strObj s) args := by
-  have hspec : Spec.charCodeAt E (.strObj s) args =
-      match Spec.toInteger E (argAt args 0) with
-      | .fin pos => if pos < 0 ∨ pos ≥ ((U s).length : Int) then .nan else .int ((U s).getD pos.toNat 0)
-      | _ => .nan := rfl
-  simp only [charCodeAt, coercible, Bool.not_true, Bool.false_eq_true, if_false]
-  rcases stringAt_cases E s (argAt args 0) hs hl with ⟨p, hx, h0, h1, hat⟩ | ⟨hout, hat⟩
-  · rw [hat]
-    have hsp : Spec.charCodeAt E (.strObj s) args = .int ((U s).getD p.toNat 0) := by
-      rw [hspec, hx]; simp only []; rw [if_neg (by omega)]
-    rw [hsp] at hdev ⊢
-    rw [if_neg]
-    intro h; apply hdev; rw [h]; rfl
-  · rw [hat, hspec]
-    simp only [if_true]
-    split
-    · rename_i pos hx; rw [if_pos (hout pos hx)]
-    · rfl
-
 /-- C09.length_strObj: the `length` own property of a String object counts code units -/
 theorem length_strObj (E : Env) (s : List Nat) : length E (.strObj s) = Spec.length E (.strObj s) := by
   simp [length, Spec.length, strLength_eq]
@@ -645,8 +667,8 @@ example : charAt E0 (.strObj [0xEF, 0xBF, 0xBD]) [num 0] ≠ Spec.charAt E0 (.st
 example : index E0 (.strObj [0xEF, 0xBF, 0xBD]) (.str [0x30]) ≠ Spec.index E0 (.strObj [0xEF, 0xBF, 0xBD]) (.str [0x30]) := by decide
 -- charAt_surrogate: "𝒳".charAt(0)
 example : charAt E0 (.strObj [0xF0, 0x9D, 0x92, 0xB3]) [num 0] ≠ Spec.charAt E0 (.strObj [0xF0, 0x9D, 0x92, 0xB3]) [num 0] := by decide
--- charAt_receiver_panic: String.prototype.charAt.call("abc", 1)
-example : charAt E0 (.val (.str sABC)) [num 1] = .panic ∧ Spec.charAt E0 (.val (.str sABC)) [num 1] = .str [0x62] := by decide
+-- (region charAt_receiver_panic was repaired by fix 6afda39: charAt.call("abc", 1) is now "b")
+example : charAt E0 (.val (.str sABC)) [num 1] = .str [0x62] ∧ Spec.charAt E0 (.val (.str sABC)) [num 1] = .str [0x62] := by decide
 -- call_undefined_this: String.prototype.trim.call(undefined)
 example : trim E0 (callThis (.val .undef)) [] ≠ Spec.trim E0 (.val .undef) [] := by decide
 -- lone_surrogate: String.fromCharCode(0xD800).concat()
